@@ -273,28 +273,53 @@ func c02Guard(rc *RuleCtx) {
 // modeFact: block b is dominated by `f.openMode & bit != 0`.
 func modeFactAt(f *ssa.Function, b *ssa.BasicBlock, bit int64) bool {
 	for _, fa := range factsAt(b) {
-		v, truth := normCond(fa.Cond, fa.Truth)
-		bo, ok := v.(*ssa.BinOp)
-		if !ok || (bo.Op != token.EQL && bo.Op != token.NEQ) {
-			continue
-		}
-		k, isC := constInt(bo.Y)
-		if !isC || k != 0 {
-			continue
-		}
-		and, ok := strip(bo.X).(*ssa.BinOp)
-		if !ok || and.Op != token.AND {
-			continue
-		}
-		m, isC := constInt(and.Y)
-		if !isC || m != bit || !isFieldLoadNamed(and.X, "openMode") {
-			continue
-		}
-		if (bo.Op == token.NEQ && truth) || (bo.Op == token.EQL && !truth) {
+		if x, m, set, ok := bitTest(fa.Cond, fa.Truth); ok && set && m == bit && isFieldLoadNamed(x, "openMode") {
 			return true
 		}
 	}
 	return false
+}
+
+// bitTest recognises the outcome of a single-mask test in any of its spellings: `x&m != 0`, `x&m == 0`, `x&m == m`,
+// `x&m != m` (operands in either order, negations stripped). set reports whether the outcome states that the bits of m
+// are set in x; for `== m` / `!= m` with a multi-bit mask the 'not all set' outcome is not a statement about single
+// bits, so only the 'set' outcome is reported then.
+func bitTest(cond ssa.Value, truth bool) (x ssa.Value, mask int64, set bool, ok bool) {
+	v, truth := normCond(cond, truth)
+	bo, isBin := v.(*ssa.BinOp)
+	if !isBin || (bo.Op != token.EQL && bo.Op != token.NEQ) {
+		return nil, 0, false, false
+	}
+	for _, pr := range [][2]ssa.Value{{bo.X, bo.Y}, {bo.Y, bo.X}} {
+		k, isC := constInt(pr[1])
+		if !isC {
+			continue
+		}
+		and, isAnd := strip(pr[0]).(*ssa.BinOp)
+		if !isAnd || and.Op != token.AND {
+			continue
+		}
+		var m int64
+		var xv ssa.Value
+		if mm, c := constInt(and.Y); c {
+			m, xv = mm, and.X
+		} else if mm, c := constInt(and.X); c {
+			m, xv = mm, and.Y
+		} else {
+			continue
+		}
+		eq := (bo.Op == token.EQL) == truth
+		switch {
+		case k == 0:
+			return xv, m, !eq, true
+		case k == m:
+			if !eq && m&(m-1) != 0 {
+				return nil, 0, false, false
+			}
+			return xv, m, eq, true
+		}
+	}
+	return nil, 0, false, false
 }
 
 func isFieldLoadNamed(v ssa.Value, field string) bool { return isFieldLoad(strip(v), field) }
